@@ -5,6 +5,7 @@ from lib import trxd as T
 from gen import trxd_consts
 from props import trxcon_part
 from props import C01 as c01
+from props import msg_reuse_part as reuse
 
 ID = "C04"
 LEVEL = "proof"
@@ -136,6 +137,10 @@ def reused_parser_oracle(run, corr, deep):
 def search(run, corr, deep):
     found = layout_oracle(run, corr, deep)
     found += reused_parser_oracle(run, corr, deep)
+    # the encoder on a message object that was encoded before: the octets are the layout of the message as it is NOW
+    rf = reuse.run(run, corr, [x for x in c01.messages(run, deep) if c01.in_quantifier(x[0], x[1])][:: 3], True, "C04")
+    if rf:
+        found += run.report_witness(reuse.witness(rf[0], len(rf)))
     found += trxcon_part.oracle(run, corr, deep, parts=("rxd", "txd"))
     found += cross_oracle(run, corr, deep)
     return found
@@ -155,6 +160,10 @@ def replay(run, path):
             a = vf.run_lines(T.HARNESS, ["trxd.%s.gen %d %s" % (w["class"], w["legacy"], w["message"])])[0]
             print("replay: %s -> %s\n  layout demands %s" % (w["message"][:200], a[:300], w["layout_demands"][:300]))
             bad += (not a.startswith("ok ")) or T.dec_octets(a[3:]).hex()[:400] != w["layout_demands"]
+        elif kind == "message-object-reused":
+            still, text = reuse.replay(w)
+            print(text)
+            bad += still
         elif kind == "trxd-parse-reused-decoder":
             k = w["class"]
             a = vf.run_lines(T.HARNESS, ["trxd.%s.rt2 %d %s %d %s" % (k, w["first_legacy"], w["first_line"], w["legacy"], w["line"])])[0]
